@@ -5,12 +5,19 @@ L2 — code-shaped model of `core/src/array.rs`, `array/iter.rs`, `array/view.rs
 import SfsModel.Model.Index
 namespace Sfs
 
-/-- `Shape::checked_elements`: `try_fold(1, checked_mul)` left to right, overflow at 2^64
-    (usize on the 64-bit target). -/
+/-- the `checked_mul` step of `Shape::checked_elements` over `v.max(1)`. -/
+def nzStep (acc : Option Nat) (v : Nat) : Option Nat :=
+  match acc with
+  | some n => if n * max v 1 < 2 ^ 64 then some (n * max v 1) else none
+  | none => none
+
+/-- `Shape::checked_elements` (after fixes 3fdf991 and 004eece): the product of the *non-zero* lengths must fit
+    `usize` (2^64 on the 64-bit target) — strides and partial products range over sub-lists of the axes, so a
+    zero-length axis must not mask an overflow — and the result is then the plain product. -/
 def checkedSize (s : List Nat) : Option Nat :=
-  s.foldl (fun acc v => match acc with
-    | some n => if n * v < 2 ^ 64 then some (n * v) else none
-    | none => none) (some 1)
+  match s.foldl nzStep (some 1) with
+  | some _ => some (size s)
+  | none => none
 
 structure Arr (α : Type) where
   data : List α
